@@ -496,3 +496,126 @@ Proof.
         destruct (k - length h)%nat as [|k'] eqn:E; simpl in Hk; [|destruct k'; discriminate].
         inversion Hk; subst t' env'. apply listed_then_done; auto.
 Qed.
+
+
+(* ---------- the node of a foreachRDD action ---------- *)
+Definition action_node (c : call) (hs : list nat) (nd : node) : Prop :=
+  match c with
+  | CForeachRDD s => exists f, nd = Trans f (nth s hs O)
+  | _ => True
+  end.
+
+Lemma expand_call_action c g hs :
+  let '(g', hs') := expand_call c (g, hs) in
+  exists nd, nth_error g' (last hs' O) = Some nd /\ action_node c hs nd.
+Proof.
+  destruct c; cbn [expand_call];
+    unfold ds_source, ds_map, ds_flatMap, ds_filter, ds_mapValues, ds_flatMapValues, ds_reduceByKey,
+      ds_groupByKey, ds_count, ds_countByValue, ds_reduce, ds_union, ds_cogrouped, ds_repartition,
+      ds_slice, ds_foreachRDD, ds_mapPartitions, ds_mapPartitionsWithIndex, ds_transformWith,
+      ds_transform, add_node; cbn [fst snd]; rewrite last_last;
+    (eexists; split; [rewrite nth_error_app2 by lia; rewrite Nat.sub_diag; reflexivity|]);
+    simpl; auto. eexists; reflexivity.
+Qed.
+
+Lemma action_node_ext c hs more nd :
+  (forall s, In s (call_args c) -> (s < length hs)%nat) ->
+  action_node c hs nd -> action_node c (hs ++ more) nd.
+Proof.
+  intros Hargs H. destruct c; simpl in *; auto.
+  destruct H as [f ->]. exists f. rewrite app_nth1; auto.
+Qed.
+
+Theorem expand_from_action : forall p g hs,
+  wf g -> handles_ok g hs -> prog_ok_from (length hs) p ->
+  forall k c, nth_error p k = Some c ->
+  exists nd, nth_error (fst (expand_from p (g, hs))) (nth (length hs + k) (snd (expand_from p (g, hs))) O) = Some nd /\
+             action_node c (snd (expand_from p (g, hs))) nd.
+Proof.
+  induction p as [|c0 p IH]; intros g hs Hwf Hh Hok k c Hk; [destruct k; discriminate|].
+  destruct Hok as [Hargs Hok]. cbn [expand_from fold_left].
+  pose proof (expand_call_post c0 g hs Hwf Hh Hargs) as Hc.
+  pose proof (expand_call_action c0 g hs) as Ha.
+  destruct (expand_call c0 (g, hs)) as [g1 hs1].
+  destruct Hc as [[new1 Hg1] [Hwf1 [r [Hhs1 [Hr _]]]]].
+  destruct Ha as [nd0 [Hnd0 Hact0]].
+  assert (Hh1 : handles_ok g1 hs1).
+  { intros h Hin. subst hs1. apply in_app_or in Hin as [Hin|[<-|[]]]; auto.
+    specialize (Hh h Hin). subst g1. rewrite app_length; lia. }
+  assert (Hlen1 : length hs1 = S (length hs)) by (subst hs1; rewrite app_length; simpl; lia).
+  rewrite <- Hlen1 in Hok.
+  pose proof (expand_from_post p g1 hs1 Hwf1 Hh1 Hok) as [_ [_ [[new HG] [[hnew [Hhs' _]] _]]]].
+  fold (expand_from p (g1, hs1)).
+  destruct k as [|k]; simpl in Hk.
+  - inversion Hk; subst c0. rewrite Nat.add_0_r.
+    assert (Hr' : nth (length hs) (snd (expand_from p (g1, hs1))) O = r).
+    { rewrite Hhs', Hhs1, <- app_assoc. rewrite app_nth2 by lia. rewrite Nat.sub_diag. reflexivity. }
+    rewrite Hr'. exists nd0. split.
+    + rewrite HG, nth_error_app1 by auto. rewrite Hhs1, last_last in Hnd0. exact Hnd0.
+    + rewrite Hhs', Hhs1, <- app_assoc. apply action_node_ext; auto.
+  - replace (length hs + S k)%nat with (length hs1 + k)%nat by lia.
+    apply (IH g1 hs1 Hwf1 Hh1 Hok k c Hk).
+Qed.
+
+(* every foreachRDD action of ANY program runs exactly once per interval, with the tick time and the
+   RDD its stream holds in this interval *)
+Theorem action_once p env t st k s :
+  prog_ok p -> nth_error p k = Some (CForeachRDD s) ->
+  let G := fst (expand p) in let hs := snd (expand p) in
+  length (ns st) = length G -> (forall i x, nth_error (ns st) i = Some x -> ctime x < t) ->
+  exists st' evs, tick G env t st = Some st' /\ log st' = log st ++ evs /\
+    fires (nth k hs O) evs = 1%nat /\
+    forall tt args, In (EvFire (nth k hs O) tt args) evs -> tt = t /\ args = [crdd_at st' (nth s hs O)].
+Proof.
+  intros Hok Hk G hs Hlen Hlt.
+  destruct (prog_sem p Hok) as [Hwf _]. fold G in Hwf.
+  destruct (expand_from_action p [] [] wf_nil ltac:(intros h []) Hok k _ Hk) as [nd [Hnd [f Hf]]].
+  assert (Hnd' : nth_error G (nth k hs O) = Some nd) by exact Hnd.
+  assert (Hf' : nd = Trans f (nth s hs O)) by exact Hf.
+  clear Hnd Hf. rename Hnd' into Hnd. subst nd.
+  destruct (tick_events G env t st Hwf Hlen Hlt) as [st' [evs [E [Hlog [_ [Hfires Hargs]]]]]].
+  exists st', evs. split; auto. split; auto. split.
+  - rewrite Hfires. unfold is_fn. rewrite Hnd. reflexivity.
+  - intros tt args Hin. destruct (Hargs _ _ _ Hin) as [-> [nd' [Hnd' ->]]].
+    split; auto. rewrite Hnd in Hnd'. inversion Hnd'; subst nd'. reflexivity.
+Qed.
+
+(* ---------- per-batch op = RDD op along a whole history ---------- *)
+Lemma spec_hist_times g : forall h c st t env,
+  (forall i s, nth_error (ns st) i = Some s -> ctime s <= c) ->
+  increasing c (h ++ [(t, env)]) ->
+  forall i s, nth_error (ns (spec_hist g h st)) i = Some s -> ctime s < t.
+Proof.
+  induction h as [|[t0 env0] h IH]; intros c st t env Hc Hinc i s Hs; simpl in *.
+  - destruct Hinc as [Hct _]. specialize (Hc i s Hs). lia.
+  - destruct Hinc as [Hct Hinc].
+    apply (IH t0 (tick_spec g env0 t0 st) t env) with (i := i); auto.
+    intros j x Hx. apply tick_spec_time in Hx. lia.
+Qed.
+
+Lemma increasing_app_l {A} c (h1 h2 : list (Z * A)) : increasing c (h1 ++ h2) -> increasing c h1.
+Proof.
+  revert c; induction h1 as [|[t e] h1 IH]; intros c H; simpl in *; auto.
+  destruct H; split; auto.
+Qed.
+
+Theorem prog_hist p h t env :
+  prog_ok p -> let G := fst (expand p) in let hs := snd (expand p) in
+  increasing 0 (h ++ [(t, env)]) ->
+  exists st st', run_hist G h (init G) = Some st /\ run_hist G (h ++ [(t, env)]) (init G) = Some st' /\
+    forall k c, nth_error p k = Some c ->
+      crdd_at st' (nth k hs O) =
+      call_sem c t (delivered G env st (nth k hs O)) (map (fun s => crdd_at st' (nth s hs O)) (call_args c)).
+Proof.
+  intros Hok G hs Hinc.
+  destruct (prog_sem p Hok) as [Hwf _]. fold G in Hwf.
+  exists (spec_hist G h (init G)), (spec_hist G (h ++ [(t, env)]) (init G)).
+  split; [apply run_hist_init; auto; eapply increasing_app_l; eauto|].
+  split; [apply run_hist_init; auto|].
+  assert (Hlen : length (ns (spec_hist G h (init G))) = length G) by (apply spec_hist_len, init_len).
+  assert (Hlt : forall i s, nth_error (ns (spec_hist G h (init G))) i = Some s -> ctime s < t).
+  { apply (spec_hist_times G h 0 (init G) t env); auto. apply init_time. }
+  destruct (prog_tick p env t _ Hok Hlen Hlt) as [st' [E Hsem]]. fold G hs in E, Hsem.
+  rewrite tick_refines in E by auto. inversion E; subst st'.
+  rewrite spec_hist_snoc. exact Hsem.
+Qed.
